@@ -36,13 +36,14 @@ class C10(PoolCheck):
     ASSUMPTIONS = [
         "reference = the same fault-free operation on a pristine forked copy of the schema (one fork per evaluation)",
         "operations documented to change the schema (use_location_hints with new namespaces, add_schema, "
-        "create_bindings) are excluded from histories",
+        "create_bindings) are excluded from histories; namespaces loaded on demand through wildcards are included "
+        "(ondemand family, served by the simulated peer)",
         "an operation whose abort fault took effect, or whose hook changed the validation mode, is not judged; "
         "every later operation is",
     ]
     REAL_STUB = {
         'real': ['xmlschema', 'elementpath', 'xml.etree.ElementTree/expat', 'user hook call sites', 'sys.settrace'],
-        'stub': ['document streams with eio fault plans'],
+        'stub': ['document streams with eio fault plans', 'the peer serving on-demand schema locations (SimPeer)'],
     }
 
     def ref_ops(self, entry, doc):
